@@ -6,6 +6,7 @@ package net
 import (
 	"context"
 	rn "net"
+	"net/netip"
 	"syscall"
 	"time"
 
@@ -30,7 +31,42 @@ type (
 	TCPListener  = rn.TCPListener
 	ListenConfig = rn.ListenConfig
 	Resolver     = rn.Resolver
+
+	Buffers             = rn.Buffers
+	DNSConfigError      = rn.DNSConfigError
+	DNSError            = rn.DNSError
+	Flags               = rn.Flags
+	HardwareAddr        = rn.HardwareAddr
+	IPConn              = rn.IPConn
+	Interface           = rn.Interface
+	InvalidAddrError    = rn.InvalidAddrError
+	KeepAliveConfig     = rn.KeepAliveConfig
+	MX                  = rn.MX
+	NS                  = rn.NS
+	SRV                 = rn.SRV
+	PacketConn          = rn.PacketConn
+	ParseError          = rn.ParseError
+	UDPConn             = rn.UDPConn
+	UnixAddr            = rn.UnixAddr
+	UnixConn            = rn.UnixConn
+	UnixListener        = rn.UnixListener
+	UnknownNetworkError = rn.UnknownNetworkError
 )
+
+var (
+	DefaultResolver     = rn.DefaultResolver
+	ErrWriteToConnected = rn.ErrWriteToConnected
+	IPv4bcast           = rn.IPv4bcast
+)
+
+func CIDRMask(ones, bits int) IPMask                     { return rn.CIDRMask(ones, bits) }
+func IPv4Mask(a, b, c, d byte) IPMask                    { return rn.IPv4Mask(a, b, c, d) }
+func ParseMAC(s string) (HardwareAddr, error)            { return rn.ParseMAC(s) }
+func LookupPort(network, service string) (int, error)    { return rn.LookupPort(network, service) }
+func ResolveIPAddr(network, a string) (*IPAddr, error)   { return rn.ResolveIPAddr(network, a) }
+func ResolveUDPAddr(network, a string) (*UDPAddr, error) { return rn.ResolveUDPAddr(network, a) }
+func TCPAddrFromAddrPort(a netip.AddrPort) *TCPAddr      { return rn.TCPAddrFromAddrPort(a) }
+func UDPAddrFromAddrPort(a netip.AddrPort) *UDPAddr      { return rn.UDPAddrFromAddrPort(a) }
 
 var (
 	ErrClosed       = rn.ErrClosed
@@ -44,12 +80,12 @@ const (
 	IPv6len = rn.IPv6len
 )
 
-func JoinHostPort(host, port string) string                     { return rn.JoinHostPort(host, port) }
-func SplitHostPort(hp string) (string, string, error)           { return rn.SplitHostPort(hp) }
-func ResolveTCPAddr(network, a string) (*TCPAddr, error)        { return rn.ResolveTCPAddr(network, a) }
-func ParseIP(s string) IP                                       { return rn.ParseIP(s) }
-func ParseCIDR(s string) (IP, *IPNet, error)                    { return rn.ParseCIDR(s) }
-func IPv4(a, b, c, d byte) IP                                   { return rn.IPv4(a, b, c, d) }
+func JoinHostPort(host, port string) string              { return rn.JoinHostPort(host, port) }
+func SplitHostPort(hp string) (string, string, error)    { return rn.SplitHostPort(hp) }
+func ResolveTCPAddr(network, a string) (*TCPAddr, error) { return rn.ResolveTCPAddr(network, a) }
+func ParseIP(s string) IP                                { return rn.ParseIP(s) }
+func ParseCIDR(s string) (IP, *IPNet, error)             { return rn.ParseCIDR(s) }
+func IPv4(a, b, c, d byte) IP                            { return rn.IPv4(a, b, c, d) }
 
 // Dialer mirrors net.Dialer (the fields corebgp and plausible variants use).
 type Dialer struct {
